@@ -208,6 +208,8 @@ def run_case(scn, ctx):
                     if any(k[1] == f for k in w.first):
                         first_gen_of.setdefault(f, gens)
         target = hist.wpath(scn, scn["target"])
+        if target not in w.history_roots():
+            target = top  # (a create -sf on an empty folder writes nothing: the generator's notion of a root was wrong)
         sealed_files = {f: w.files[f] for f in w.media_files(target)}
         sealed_dirs = set(w.media_dirs(target))
         nested_roots = [r for r in w.history_roots() if r != top]
